@@ -1,5 +1,6 @@
 """C12 (partial): no input crashes, corrupts memory in or hangs the parsers."""
 import os
+import re
 import shutil
 
 from .. import core
@@ -102,6 +103,12 @@ def mutate_columns(rng, b):
     return b"\n".join(b",".join(r) for r in tbl) + b"\n"
 
 
+BOUNDARY_INTS = [str(v).encode() for v in (
+    2 ** 31 - 2, 2 ** 31 - 1, 2 ** 31, 2 ** 31 + 1, 2 ** 31 + 2, 2147483650, 2147483657, 21474836470, 2 ** 32 - 1, 2 ** 32, 2 ** 32 + 1,
+    2 ** 63 - 1, 2 ** 63, 2 ** 63 + 1, 2 ** 64 - 1, 2 ** 64, 10 ** 19, 10 ** 40, 999999999, 1000000000, 1999999999, 3000000000)] + [
+    b"0" * 12 + b"7", b"00", b"-1", b"-2147483648", b"-2147483649", b"+5"]
+
+
 def mutate(rng, b):
     b = bytearray(b)
     for _ in range(rng.choice([1, 1, 1, 2, 3])):
@@ -116,8 +123,14 @@ def mutate(rng, b):
         elif k < 0.45 and b:
             a = rng.randrange(len(b))
             b[pos:pos] = b[a:a + rng.randint(1, 40)]
-        elif k < 0.52:
+        elif k < 0.48:
             b[pos:pos] = str(rng.choice([2 ** 31 - 1, 2 ** 31, 2 ** 63, 10 ** 30, -1])).encode()
+        elif k < 0.52:
+            # an existing number replaced by one at a boundary of int / unsigned / long / their decimal lengths
+            runs = [m.span() for m in re.finditer(rb"[0-9]+", bytes(b))]
+            if runs:
+                a, e = rng.choice(runs)
+                b[a:e] = rng.choice(BOUNDARY_INTS)
         elif k < 0.58:
             b[pos:pos] = bytes([rng.choice(b'abcxyz-09"{}$,\\n')]) * rng.choice([300, 5000, 70000])
         elif k < 0.66:
@@ -199,6 +212,32 @@ def run(ctx):
         rc, out, err = core.run_cmd([os.path.join(d, "robsd-regress-html")] + argv, env=env, timeout=20)
         judge("robsd-regress-html", argv, rc, out, err, b"", {"step.csv": f})
         kinds["column-removed"] = kinds.get("column-removed", 0) + 1
+    # ---- systematically: every boundary literal as the value of each integer keyword and as each integer
+    # column of a step file (int / unsigned / long limits, one below and above, decimal lengths, leading zeros)
+    p = os.path.join(root, "b.conf")
+    for bi, v in enumerate(BOUNDARY_INTS):
+        for kw, rmode in ((b"stat-interval %s", "robsd-cross"), (b"keep %s", "robsd-ports"), (b"regress-timeout %s s", "robsd-regress"),
+                          (b"regress-timeout %s h", "robsd-regress")):
+            base_ = b"\n".join(l for l in conf[rmode].split(b"\n") if not l.startswith(kw.split(b" ")[0]))
+            c = base_ + kw % v + b"\n"
+            open(p, "wb").write(c)
+            argv = ["-m", rmode, "-C", p, "-"]
+            rc, out, err = core.run_cmd([os.path.join(d, "robsd-config")] + argv, stdin=b"${stat-interval} ${keep}\n", env=env, timeout=20)
+            judge("robsd-config", argv, rc, out, err, b"", {"b.conf": c})
+            kinds["boundary-int-conf"] = kinds.get("boundary-int-conf", 0) + 1
+        col = (0, 2, 3, 4, 7, 8)[bi % 6]
+        rows_ = [l.split(b",") for l in step.split(b"\n") if l]
+        rows_[2][col] = v
+        f = b"\n".join(b",".join(r) for r in rows_) + b"\n"
+        open(os.path.join(bdir, "step.csv"), "wb").write(f)
+        argv = ["-R", "-f", os.path.join(bdir, "step.csv"), "-i", "1"]
+        rc, out, err = core.run_cmd([os.path.join(d, "robsd-step")] + argv, stdin=tmpl, env=env, timeout=20)
+        judge("robsd-step -R", argv, rc, out, err, tmpl, {"step.csv": f})
+        open(os.path.join(root, "c.conf"), "wb").write(conf["robsd"])
+        argv = ["-m", "robsd", "-C", os.path.join(root, "c.conf"), bdir]
+        rc, out, err = core.run_cmd([os.path.join(d, "robsd-report")] + argv, env=env, timeout=20)
+        judge("robsd-report", argv, rc, out, err, b"", {"step.csv": f})
+        kinds["boundary-int-step"] = kinds.get("boundary-int-step", 0) + 1
     # ---- logs beyond 1 MiB (the buffers of the report and html generators start at 1 MiB / 8 KiB)
     for variant in range(ctx.n(2, 6)):
         # suites named like regress tests (the html generator leaves the fixed steps env/cvs/... out)
